@@ -47,6 +47,9 @@ func (g *Gen) begin(note string) {
 
 // do executes one step right away and returns the id of the last frame in the family.
 func (g *Gen) do(st Step) int {
+	if st.Op == "New" {
+		lastNew = st
+	}
 	g.cur.Steps = append(g.cur.Steps, st)
 	g.x.step = len(g.cur.Steps)
 	g.x.runStep(g.cur, &g.cur.Steps[len(g.cur.Steps)-1])
